@@ -1,5 +1,5 @@
 (* bitwise operations, comparisons, sign test, shifts *)
-From C17 Require Import Model Proofs ProofsLib ProofsArith.
+From C17 Require Import Model Proofs ProofsLib.
 From Coq Require Import ZifyBool.
 Local Open Scope Z_scope.
 Ltac Zify.zify_post_hook ::= Z.div_mod_to_equations.
